@@ -29,6 +29,9 @@ THEOREMS = [
 HARNESSES = [
     dict(name="cb", pkg="pkg/util/circuitbreaker", files=["harness/circuitbreaker/zz_verif_c08_test.go"],
          run="TestVerifC08", groups=["cb"], timeout=600),
+    dict(name="race", pkg="pkg/util/circuitbreaker", files=["harness/circuitbreaker/zz_verif_c08_test.go",
+                                                            "harness/circuitbreaker/zz_verif_c08_race_test.go"],
+         run="TestVerifC08Race", groups=["race"], timeout=600, share=0.08),
     dict(name="lin", pkg="pkg/util/circuitbreaker", files=["harness/circuitbreaker/zz_verif_c08_test.go"],
          run="TestVerifC08Lin", groups=["lin"], timeout=900, share=0.02, thorough_only=True, race=True),
     dict(name="wrap", pkg="pkg/resilience", files=["harness/resilience/zz_verif_c08_wrap_test.go"],
@@ -38,8 +41,8 @@ HARNESSES = [
          run="TestVerifC08Proxy", groups=["pool"], timeout=600, share=0.1,
          extra_overlay={"pkg/util/circuitbreaker/zz_verif_c08_hook.go": "harness/circuitbreaker/zz_verif_c08_hook.go"}),
 ]
-GROUPS = {"cb": "check_cb", "wrap": "check_wrap", "pool": "check_pool", "lin": "check_lin"}
-EXPLAIN = {"cb": "explain_cb", "wrap": "explain_wrap", "pool": "explain_pool", "lin": "explain_lin"}
+GROUPS = {"cb": "check_cb", "wrap": "check_wrap", "pool": "check_pool", "lin": "check_lin", "race": "check_lin"}
+EXPLAIN = {"cb": "explain_cb", "wrap": "explain_wrap", "pool": "explain_pool", "lin": "explain_lin", "race": "explain_lin"}
 CASES = {"quick": 1600, "thorough": 20000}
 RULE = ("cases: random policies (thresholds 1..100, count/time window 1..12, minimum 0..12, permitted 0..6, wait/maxWait/slow durations) "
         "x histories of acquire / record(success|failure|slow, own, stale or foreign id) / clock advance (none, sub-second, second "
@@ -47,6 +50,8 @@ RULE = ("cases: random policies (thresholds 1..100, count/time window 1..12, min
         "reached OPEN(+1) reached HALF_OPEN(+2) stale record(+4) time-based(+8) recovery to CLOSED(+16); "
         "groups wrap (resilience wrapper: handler nil/error/panic) and pool (Proxy: 2xx/transport error/failure code) likewise; "
         "group lin (thorough, -race): 2-5 goroutines, <= 10 stamped operations, linearization search; "
+        "group race (quick): deterministic forced overlap - operation A parked at its clock reading inside the critical section, "
+        "B issued meanwhile (two trial results at the closing/reopening transition, acquire vs transition, record vs max-wait reopen, random); "
         "distinct = distinct (group, input) hashes among non-trivial cases")
 TRUSTED_BASE = [
     "model coq/model/CB.v is hand-written; tied to pkg/util/circuitbreaker, pkg/resilience and pkg/filters/proxy by the per-run correspondence (sampled)",
@@ -129,12 +134,14 @@ def encode(c):
         return Rec(q_pol=_pol(i["pol"]), q_t0=Z(i["t0"]), q_retry=Z(i.get("retry", 0)), q_reqs=L(reqs),
                    q_obs=L([T(Z(s["status"]), S(s["result"]), Z(s["contacted"]), Z(s["state"]), Z(s["id"]), Z(s["total"]))
                             for s in (o["reqs"] or [])]))
-    if g == "lin":
+    if g in ("lin", "race"):
         ops = []
         for op in o["ops"] or []:
-            term = C("OAcq", Z(0)) if op["k"] == 0 else C("ORec", Z(0), Z(op["id"]), B(op["err"]), Z(0))
+            now = op.get("now", 0)
+            term = C("OAcq", Z(now)) if op["k"] == 0 else C("ORec", Z(now), Z(op["id"]), B(op["err"]), Z(op.get("dur", 0)))
             ops.append(Rec(l_call=Z(op["call"]), l_ret=Z(op["ret"]), l_op=term, l_flag=B(op["flag"] == 1), l_id=Z(op["id"])))
-        return Rec(n_pol=_pol(i["pol"]), n_t0=Z(0), n_ops=L(ops), n_final=T(Z(o["state"]), Z(o["id"])))
+        return Rec(n_pol=_pol(i["pol"]), n_t0=Z(i.get("t0", 0)), n_ops=L(ops),
+                   n_final=T(Z(o["state"]), Z(o["id"]), Z(o.get("total", -1))))
     raise ValueError(g)
 
 
@@ -167,7 +174,7 @@ def distribution(cases):
 
 
 def shrink_candidates(inp, grp):
-    if grp == "lin":
+    if grp in ("lin", "race"):
         return
     key = {"cb": "ops", "wrap": "calls", "pool": "reqs"}[grp]
     ops = inp.get(key) or []
